@@ -467,6 +467,7 @@ func (m *MonChecks) Finish(s *Sim) {
 		return
 	}
 	opts := s.Opts
+	opts.AppDir = "" // a second instance never shares the first one's app DB directory
 	opts.Dir, opts.Wrap = "", nil
 	b := NewNode(opts)
 	defer b.Destroy()
